@@ -326,3 +326,11 @@ Fixpoint lex_fuel (fuel : str) (l : lexer) : option (list terminal) :=
   end.
 Definition lex_all (s : str) : list terminal :=
   match lex_fuel (0 :: s) (lexer_new s) with Some ts => ts | None => [] end.
+
+(* ---- specification predicates used by the progress theorems (definitions only) ---- *)
+(* every trivium holds at least one character *)
+Definition trivia_ok (tvs : list trivium) : Prop := Forall (fun tv => tv_text tv <> []) tvs.
+(* every trivium is non-empty and a terminal other than EndOfFile has a non-empty token text *)
+Definition terminal_ok (t : terminal) : Prop :=
+  trivia_ok (t_leading t) /\ trivia_ok (t_trailing t)
+  /\ (t_kind t <> TEndOfFile -> t_text t <> []).
